@@ -213,3 +213,351 @@ pub fn c14(ctx: &mut Ctx) {
     }
     run_docprop(ctx, DocProp { evals, opts: opts_qx_both, exhaustive: false, n_rand: (2500, 60000), pools: vec![], tweak, extra: None, max_docs: 3, with_chars: true, what: "few names and deep trees so the same name recurs under different parents, at different depths and under itself" });
 }
+
+// ------------------------------------------------------------------ canonical schema (C06)
+/// schema of a tree: fields, optionality, multiplicity, text flags, nesting — no order,
+/// no counts, no positions
+pub fn canon(t: &Tree) -> String {
+    let mut at: Vec<String> = t.attrs.iter().map(|(m, a)| format!("{}{}", if *m { "!" } else { "?" }, a)).collect();
+    at.sort();
+    let mut ch: Vec<String> = t.children.iter().map(|(m, c)| format!("{}{}{}", if *m { "!" } else { "?" }, if c.standalone { "1" } else { "*" }, canon(c))).collect();
+    ch.sort();
+    format!("<{} text={} [{}] {{{}}}>", t.name, t.text, at.join(","), ch.join(","))
+}
+/// `b` never drops a field of `a`, never turns Option into required or Vec into single
+pub fn monotone(a: &Tree, b: &Tree) -> bool {
+    if a.text && !b.text {
+        return false;
+    }
+    for (m, x) in &a.attrs {
+        match b.attrs.iter().find(|(_, y)| y == x) {
+            None => return false,
+            Some((m2, _)) => {
+                if !*m && *m2 {
+                    return false;
+                }
+            }
+        }
+    }
+    for (m, c) in &a.children {
+        match b.children.iter().find(|(_, d)| d.name == c.name) {
+            None => return false,
+            Some((m2, d)) => {
+                if (!*m && *m2) || (!c.standalone && d.standalone) || !monotone(c, d) {
+                    return false;
+                }
+            }
+        }
+    }
+    true
+}
+fn tree_of_result(r: &ImplResult) -> Option<&Tree> {
+    match r {
+        ImplResult::Tree(t, _) => Some(t),
+        _ => None,
+    }
+}
+fn docs_json(b: &[Vec<u8>]) -> J {
+    J::A(b.iter().map(|x| json::bytes(x)).collect())
+}
+
+fn c06_extra(_ctx: &mut Ctx, docs: &[Vec<Node>], bytes: &[Vec<u8>], b: &Built, rng: &mut Rng, hist: &mut Hist) -> Vec<J> {
+    let mut fails = vec![];
+    let Some(base) = tree_of_result(&b.result) else { return fails };
+    let cfg = RCfg::default();
+    let same_root = docs.iter().all(|d| root_name(d) == root_name(&docs[0]));
+    let mut fail = |check: &str, what: String, variant: &[Vec<u8>], got: &ImplResult| {
+        fails.push(json::obj(vec![("check", json::s(check)), ("what", json::s(what)), ("documents", docs_json(bytes)), ("variant_documents", docs_json(variant)), ("base_schema", json::s(canon(base))), ("variant_result", got.json())]));
+    };
+    // (a) order independence: a random permutation (the first document included)
+    if same_root && docs.len() >= 2 {
+        let mut idx: Vec<usize> = (0..docs.len()).collect();
+        rng.shuffle(&mut idx);
+        let v: Vec<Vec<u8>> = idx.iter().map(|i| bytes[*i].clone()).collect();
+        let r = run_impl(&v, &cfg, &mut ErrTab::default());
+        hist.add("c06:permutation");
+        if tree_of_result(&r).map(canon) != Some(canon(base)) {
+            fail("permutation", format!("supplying the documents in the order {:?} changes the schema", idx), &v, &r);
+        }
+    }
+    // (b) supplying a document a second time
+    if same_root {
+        let i = rng.below(docs.len());
+        let mut v = bytes.to_vec();
+        v.insert(rng.range(1, v.len()), bytes[i].clone());
+        let r = run_impl(&v, &cfg, &mut ErrTab::default());
+        hist.add("c06:repetition");
+        if tree_of_result(&r).map(canon) != Some(canon(base)) {
+            fail("repetition", format!("supplying document {} a second time changes the schema", i), &v, &r);
+        }
+    }
+    // (c) an empty or element-less document as an extension
+    {
+        let blank: &[&str] = &["", " ", "\n", "<!--c-->", "<?xml version=\"1.0\"?>", "<?pi?>\n", "<!DOCTYPE r>", "\n<!-- a --><!-- b -->\n"];
+        let mut v = bytes.to_vec();
+        v.insert(rng.range(1, v.len()), rng.pick(blank).as_bytes().to_vec());
+        let r = run_impl(&v, &cfg, &mut ErrTab::default());
+        hist.add("c06:element-less");
+        if tree_of_result(&r).map(canon) != Some(canon(base)) {
+            fail("element-less", "extending with an empty / element-less document changes the schema".into(), &v, &r);
+        }
+    }
+    // (d) monotone along the sequence
+    if same_root {
+        let mut prev: Option<Tree> = None;
+        for k in 1..=bytes.len() {
+            let r = run_impl(&bytes[..k], &cfg, &mut ErrTab::default());
+            hist.add("c06:monotone-step");
+            match tree_of_result(&r) {
+                Some(t) => {
+                    if let Some(p) = &prev {
+                        if !monotone(p, t) {
+                            fail("monotone", format!("extending with document {} drops a field or turns Option/Vec into required/single", k - 1), &bytes[..k], &r);
+                        }
+                    }
+                    prev = Some(t.clone());
+                }
+                None => fail("monotone", "prefix of an accepted sequence is rejected".into(), &bytes[..k], &r),
+            }
+        }
+    }
+    // (e) a failed extension is an error, not a partial result
+    {
+        let bad: &[&str] = &["<a><b></a>", "<a x=1/>", "<a x='1' x='2'/>", "<a><b>", "<a></b>", "<a>\u{0}<", "<a><![CDATA[x</a>", "<!-- unterminated"];
+        let root = root_name(&docs[0]).unwrap_or("a".to_string());
+        let mut v = bytes.to_vec();
+        let bdoc = rng.pick(bad).replace("<a", &format!("<{}", root)).replace("</a>", &format!("</{}>", root));
+        v.push(bdoc.into_bytes());
+        let mut tab = ErrTab::default();
+        let expect_err = record(v.last().unwrap(), &cfg, &mut tab).iter().any(|e| match e {
+            Ev::Err(..) => true,
+            Ev::Start(_, a) | Ev::Empty(_, a) => a.iter().any(|x| matches!(x, AttrRes::Err(_))),
+            _ => false,
+        });
+        let r = run_impl(&v, &cfg, &mut ErrTab::default());
+        hist.add(if expect_err { "c06:faulty-extension" } else { "c06:lenient-extension" });
+        if expect_err && tree_of_result(&r).is_some() {
+            fail("failed-extension", "an extension whose input is at fault returned Ok".into(), &v, &r);
+        }
+        if let ImplResult::Other(_) = r {
+            fail("failed-extension", "extension panicked".into(), &v, &r);
+        }
+    }
+    fails
+}
+fn root_name(d: &[Node]) -> Option<String> {
+    d.iter().find_map(|n| match n {
+        Node::Elem { name, .. } => Some(name.clone()),
+        _ => None,
+    })
+}
+pub fn c06(ctx: &mut Ctx) {
+    let mut evals = corr_core();
+    evals.extend(vec![ev("exact", "or_exact", "oracle"), ev("hyp", "in_hyp_docs", "hyp")]);
+    run_docprop(ctx, DocProp { evals, opts: opts_qx_one, exhaustive: true, n_rand: (2500, 60000), pools: vec![], tweak: no_tweak, extra: Some(c06_extra), max_docs: 4, with_chars: true, what: "each sequence is also re-run on the implementation permuted, with a repeated document, with an element-less document inserted, prefix by prefix (monotonicity) and with a faulty extension appended" });
+}
+
+// ------------------------------------------------------------------ C11
+fn rewrite(n: &Node, rng: &mut Rng) -> Node {
+    match n {
+        Node::Text => {
+            if rng.chance(1, 3) {
+                Node::CData
+            } else {
+                Node::Text
+            }
+        }
+        Node::CData => {
+            if rng.chance(1, 3) {
+                Node::Text
+            } else {
+                Node::CData
+            }
+        }
+        Node::Misc => Node::Misc,
+        Node::Elem { name, empty, attrs, kids } => {
+            let mut ks: Vec<Node> = vec![];
+            for k in kids {
+                if *k == Node::Misc && rng.chance(1, 2) {
+                    continue; // remove a comment / PI
+                }
+                if rng.chance(1, 8) {
+                    ks.push(Node::Misc); // insert one
+                }
+                ks.push(rewrite(k, rng));
+            }
+            if !kids.is_empty() && rng.chance(1, 8) {
+                ks.push(Node::Misc);
+            }
+            normalize(&mut ks);
+            // `<x/>` <-> `<x></x>`
+            let childless = ks.is_empty();
+            let empty2 = if childless && rng.chance(1, 2) { !*empty } else { *empty && childless };
+            Node::Elem { name: name.clone(), empty: empty2, attrs: attrs.clone(), kids: ks }
+        }
+    }
+}
+fn rewrite_doc(d: &[Node], rng: &mut Rng) -> Vec<Node> {
+    let mut out = vec![];
+    if rng.chance(1, 3) {
+        out.push(Node::Misc); // declaration / DOCTYPE / comment in the prolog
+    }
+    for n in d {
+        match n {
+            Node::Misc if rng.chance(1, 2) => {}
+            Node::Text => {}
+            _ => out.push(rewrite(n, rng)),
+        }
+    }
+    if rng.chance(1, 4) {
+        out.push(Node::Misc);
+    }
+    out
+}
+fn c11_extra(_ctx: &mut Ctx, docs: &[Vec<Node>], bytes: &[Vec<u8>], b: &Built, rng: &mut Rng, hist: &mut Hist) -> Vec<J> {
+    let mut fails = vec![];
+    if tree_of_result(&b.result).is_none() {
+        return fails;
+    }
+    let base: Vec<&Result<String, String>> = b.renders.iter().map(|(_, r)| r).collect();
+    let opts: Vec<Opts> = b.renders.iter().map(|(o, _)| o.clone()).collect();
+    let mut check = |label: &str, v: &[Vec<u8>], cfg: &RCfg, fails: &mut Vec<J>| {
+        let r = run_impl(v, cfg, &mut ErrTab::default());
+        hist.add(&format!("c11:{}", label));
+        let outs: Vec<Result<String, String>> = match &r {
+            ImplResult::Tree(_, e) => opts.iter().map(|o| render(e, o)).collect(),
+            _ => vec![],
+        };
+        let same = outs.len() == base.len() && outs.iter().zip(base.iter()).all(|(a, b)| a == *b);
+        if !same {
+            fails.push(json::obj(vec![
+                ("check", json::s(label)),
+                ("what", json::s(format!("the rendering changes under the rewrite `{}`", label))),
+                ("documents", docs_json(bytes)),
+                ("variant_documents", docs_json(v)),
+                ("reader", cfg.json()),
+                ("base_output", json::s(base.get(0).and_then(|r| r.as_ref().ok()).cloned().unwrap_or_default())),
+                ("variant_output", match outs.get(0) {
+                    Some(Ok(s)) => json::s(s),
+                    _ => r.json(),
+                }),
+            ]));
+        }
+    };
+    let dflt = RCfg::default();
+    // values, text content, whitespace inside tags, quoting: another style of the same DOM
+    let v = serialise(docs, rng);
+    check("other-values-and-text", &v, &dflt, &mut fails);
+    // text <-> CDATA, comments / PIs / declaration / DOCTYPE inserted and removed, <x/> <-> <x></x>
+    let d2: Vec<Vec<Node>> = docs.iter().map(|d| rewrite_doc(d, rng)).collect();
+    let v2 = serialise(&d2, rng);
+    check("dom-rewrites", &v2, &dflt, &mut fails);
+    // reader asked to expand empty elements
+    check("expand-empty-elements", bytes, &RCfg { expand_empty: true, ..dflt }, &mut fails);
+    // buffer sizes
+    let cap = *rng.pick(&[1usize, 2, 3, 7, 64, 8192]);
+    check("bufreader-capacity", bytes, &RCfg { bufcap: cap, ..dflt }, &mut fails);
+    check("rewrites+capacity+expand", &v2, &RCfg { bufcap: *rng.pick(&[1usize, 5, 16]), expand_empty: true, ..dflt }, &mut fails);
+    fails
+}
+pub fn c11(ctx: &mut Ctx) {
+    let evals = corr_core();
+    run_docprop(ctx, DocProp { evals, opts: opts_presets, exhaustive: true, n_rand: (2000, 50000), pools: vec![], tweak: no_tweak, extra: Some(c11_extra), max_docs: 3, with_chars: true, what: "each sequence is also rendered by the implementation after re-serialising the same DOM with other values/text/whitespace, after DOM rewrites (text<->CDATA, comments/PIs/declaration/DOCTYPE inserted and removed, <x/> <-> <x></x>), with expand_empty_elements, and through BufReaders of capacity 1..8192; all renderings (both presets x both sorts) must be byte-identical" });
+}
+
+// ------------------------------------------------------------------ C05
+fn c05_extra(ctx: &mut Ctx, _docs: &[Vec<Node>], bytes: &[Vec<u8>], b: &Built, rng: &mut Rng, hist: &mut Hist) -> Vec<J> {
+    let mut fails = vec![];
+    if tree_of_result(&b.result).is_none() {
+        return fails;
+    }
+    let opts: Vec<Opts> = b.renders.iter().map(|(o, _)| o.clone()).collect();
+    let base: Vec<String> = b.renders.iter().map(|(_, r)| r.clone().unwrap_or_default()).collect();
+    let run_all = |bytes: &[Vec<u8>], opts: &[Opts]| -> Vec<String> {
+        match run_impl(bytes, &RCfg::default(), &mut ErrTab::default()) {
+            ImplResult::Tree(_, e) => opts.iter().map(|o| render(&e, o).unwrap_or_default()).collect(),
+            r => vec![format!("{}", r.json().to_string())],
+        }
+    };
+    let mut report = |how: &str, got: &Vec<String>| {
+        fails.push(json::obj(vec![
+            ("check", json::s(how)),
+            ("what", json::s(format!("rendering differs between two runs on the same input ({})", how))),
+            ("documents", docs_json(bytes)),
+            ("first_run", json::s(base.get(0).cloned().unwrap_or_default())),
+            ("other_run", json::s(got.iter().zip(base.iter()).find(|(a, b)| a != b).map(|(a, _)| a.clone()).unwrap_or_default())),
+        ]));
+    };
+    // in-process repetitions: every HashMap::new() gets a fresh RandomState
+    let reps = if ctx.thorough { 12 } else { 6 };
+    for _ in 0..reps {
+        hist.add("c05:in-process-repetition");
+        let got = run_all(bytes, &opts);
+        if got != base {
+            report("in-process repetition", &got);
+            break;
+        }
+    }
+    // fresh threads (thread-local hash keys are re-seeded per thread)
+    let nthreads = 3;
+    let handles: Vec<_> = (0..nthreads)
+        .map(|_| {
+            let bytes = bytes.to_vec();
+            let opts = opts.clone();
+            std::thread::spawn(move || match run_impl(&bytes, &RCfg::default(), &mut ErrTab::default()) {
+                ImplResult::Tree(_, e) => opts.iter().map(|o| render(&e, o).unwrap_or_default()).collect::<Vec<String>>(),
+                r => vec![r.json().to_string()],
+            })
+        })
+        .collect();
+    for h in handles {
+        hist.add("c05:fresh-thread");
+        if let Ok(got) = h.join() {
+            if got != base {
+                report("another thread", &got);
+            }
+        }
+    }
+    // fresh processes (a sample: process start-up dominates)
+    if rng.chance(1, if ctx.thorough { 10 } else { 25 }) {
+        let dir = ctx.out.join("proc");
+        std::fs::create_dir_all(&dir).ok();
+        let mut args: Vec<String> = vec!["render-proc".into()];
+        for (i, d) in bytes.iter().enumerate() {
+            let p = dir.join(format!("d{}.xml", i));
+            std::fs::write(&p, d).unwrap();
+            args.push(p.to_string_lossy().to_string());
+        }
+        for _ in 0..2 {
+            hist.add("c05:fresh-process");
+            let exe = std::env::current_exe().unwrap();
+            if let Ok(out) = std::process::Command::new(exe).args(&args).output() {
+                let got = String::from_utf8_lossy(&out.stdout).to_string();
+                let want: String = opts_presets(rng).iter().map(|o| run_all(bytes, &[o.clone()]).join("")).collect::<Vec<_>>().join("\u{1}");
+                if got != want {
+                    report("another process", &vec![got]);
+                }
+            }
+        }
+    }
+    fails
+}
+/// `xsgh render-proc f1 f2 ..`: parse/extend the files and print the four standard renderings
+pub fn render_proc(files: &[String]) {
+    let bytes: Vec<Vec<u8>> = files.iter().map(|f| std::fs::read(f).unwrap()).collect();
+    let mut rng = Rng::new(0);
+    let outs: Vec<String> = match run_impl(&bytes, &RCfg::default(), &mut ErrTab::default()) {
+        ImplResult::Tree(_, e) => opts_presets(&mut rng).iter().map(|o| render(&e, o).unwrap_or_default()).collect(),
+        r => vec![r.json().to_string(); 4],
+    };
+    print!("{}", outs.join("\u{1}"));
+}
+pub fn c05(ctx: &mut Ctx) {
+    let evals = vec![ev("tree", "ev_tree", "corr"), ev("bytes", "ev_bytes", "corr")];
+    fn tweak(g: &mut GenCfg, rng: &mut Rng) {
+        // multi-demotion shapes: wide parents repeated with different subsets of children
+        g.max_kids = rng.range(3, 7);
+        g.p_empty = 350;
+    }
+    run_docprop(ctx, DocProp { evals, opts: opts_presets, exhaustive: false, n_rand: (1500, 30000), pools: vec![0, 3, 3, 4, 5, 5, 6, 7, 9, 10, 11, 12], tweak, extra: Some(c05_extra), max_docs: 4, with_chars: true, what: "collision-prone name pools over-weighted; every case is parsed and rendered again 6-12x in process (fresh HashMap seeds), on 3 fresh threads and (a sample) in 2 fresh processes; all bytes must coincide and equal the model's" });
+}
